@@ -113,6 +113,7 @@ func newC03Runner(spec *GenSpec) *c03Runner {
 			r.breach = msg
 			t.Fatalf("CONTRACT: %s", msg)
 		}
+		spec.Scribble(v) // the value is ours now: whatever we do to it must not show in later values
 		if r.fail {
 			t.Fatalf("recording wanted")
 		}
@@ -149,6 +150,7 @@ func (c03) Run(c *Ctx, csAny any) Outcome {
 			if msg := cs.Spec.Contract(r.x.Env, v); msg != "" {
 				out.Viol = violf(contractKey(msg), "Example(%d): %s", s, msg)
 			}
+			cs.Spec.Scribble(v)
 		}()
 		if out.Viol != nil {
 			return out
